@@ -26,7 +26,7 @@ func verifPureGen(outAbs string, marker string, mc []byte, items map[string]stri
 }
 
 func verifWalk(ext, roots, tree string) string {
-	top, err := os.MkdirTemp("", "verif-walk-")
+	top, err := os.MkdirTemp(verifScratch(), "verif-walk-")
 	if err != nil {
 		return "harness-error " + err.Error()
 	}
